@@ -3,6 +3,7 @@ Tactics shared by the C17 / C20 theorems about the closed-form hydro solvers.  A
 the generator registers (tree / leaf / cond), never on leaf numbers.
 -/
 import EPV.Spec.AdmissibleHydro
+import EPV.Lemmas.HydroRobust
 import EPV.Tactics
 
 set_option linter.all false
@@ -14,7 +15,13 @@ macro "epv_positivity" : tactic =>
   `(tactic| (simp only [epv_tree] at *
              (try split_ifs at *) <;> first
                | epv_absurd
-               | (simp only [epv_leaf, epv_cond, not_le, not_lt] at *; first | positivity | (simp only [mul_assoc, ← sq]; positivity) | (ring_nf; positivity))))
+               | (simp only [epv_leaf, epv_cond, not_le, not_lt] at *
+                  first
+                  | positivity
+                  | (epv_hydro_pos_facts; positivity)
+                  | (simp only [mul_assoc, ← sq]; positivity)
+                  | (epv_hydro_pos_facts; simp only [mul_assoc, ← sq]; positivity)
+                  | (ring_nf; positivity))))
 
 
 /-- go to the leaf the hypotheses select: split the tree, refute the other paths by linear arithmetic,
@@ -48,4 +55,5 @@ macro "init_loud" : tactic =>
   `(tactic| (simp only [epv_tree] <;> (try split_ifs) <;> simp))
 
 /-- split a `WellDefined` conjunction and discharge every side condition by `positivity` -/
-macro "well_defined" : tactic => `(tactic| ((repeat' constructor) <;> positivity))
+macro "well_defined" : tactic =>
+  `(tactic| ((repeat' constructor) <;> first | positivity | epv_hydro_side))
